@@ -73,6 +73,7 @@ def run(chk, repo):
         raise AnalysisError(f"only {n_pad} padding leaves recognised in the layouts (expected > 40): the padding name predicate lost its anchors")
     # remove_spares' own predicate must agree with the names used for padding in the structs it is applied to
     p1_predicate(chk, repo, L)
+    padding_borders(chk, L)
     # ---------------------------------------------------------------- P2 (b) conversions on nullable fields
     nullable = {}
     for key, prefix in (("leader", ""), ("volume", ""), ("image_descriptor", ""), ("signal", ""), ("processed", "")):
@@ -113,6 +114,32 @@ def _drop_value_rules(chk):
     chk.obligations[:] = [o for o in chk.obligations if o["rule"] != "C20-P3v"]
     # value semantics of filled fields belong to C03/C04, not to this property
     chk.violations[:] = [v_ for v_ in chk.violations if v_["rule"] != "C20-P3v"]
+
+
+def padding_borders(chk, L):
+    """the border between a field and the padding next to it is where the reference layout puts it: a field that grew
+    while a padding area of the same record shrank (or the reverse) now reads padding bytes as data (or drops data bytes)"""
+    from ..reference import leaf_record, load
+    ref = load()["records"]
+    n = 0
+    for key in ("leader", "volume", "signal", "processed", "image_descriptor", "trailer"):
+        cur = L.by_name(key)
+        pads_changed, fields_changed = [], []
+        for r in ref[key]["leaves"]:
+            lf = cur.get(r["path"])
+            if lf is None or r["kind"] != "field":
+                continue
+            now = leaf_record(lf)
+            n += 1
+            if now["width"] != r["width"]:
+                (pads_changed if r["padding"] else fields_changed).append((r["path"], r["width"], now["width"]))
+        top = lambda p: p.split(".")[0]
+        for path, w0, w1 in fields_changed:
+            comp = [(pp, a, b) for pp, a, b in pads_changed if top(pp) == top(path) or "." not in path]
+            if comp:
+                chk.fail("C20-P1", f"{key}: {path}", f"field {path} changed its width {w0} -> {w1} while the padding {comp[0][0]} of the same record changed {comp[0][1]} -> {comp[0][2]}: "
+                                                        f"the field now covers bytes the format leaves blank (or loses bytes to the padding); non-blank padding content changes or breaks the value", key=f"{key}:{path}:padding-border")
+    chk.ok("C20-P1", "layouts", f"{n} reference fields: no field changed its width at the expense of a padding area of its record")
 
 
 def p1_predicate(chk, repo, L):
